@@ -5,11 +5,12 @@
    lexer emits nothing (C17_lexer_shape), an accepted parse has consumed the input up to tEOF
    (C17_ok_reaches_eof: a lexical failure ends the parse with an error).  The grammar itself is
    Spec/Syntax.v (`ast_program`); "accepted iff derivable, and then the code is the code generator's" is
-   theorem T2, which the check tests on every generated sentence and mutation (suite t2check) and whose Coq
-   proof is in progress; C17_resync (a later faulty statement still gets its own diagnostic) is validated by
+   theorem T2, proved (C17_accepts_iff for token lists, C17_source for source texts, C17_code for the code of
+   accepted texts; C17_fuel: the parser's recursion fuel is never the reason for a rejection); C17_resync (a later faulty statement still gets its own diagnostic) is validated by
    the differential run only. *)
 From BCL Require Import Model.Api Proofs.LineCalcProofs Proofs.LexerProofs Proofs.ParserInvProofs.
 Open Scope N_scope.
+From BCL Require Import Model.Compile Spec.Syntax Proofs.T2Expr Proofs.T2Proofs Proofs.Language.
 
 Theorem C17_error_iff_log : forall ts,
   hadError (parse_tokens ts) = true <-> log (parse_tokens ts) <> [].
@@ -44,6 +45,55 @@ Theorem C17_diag_at_token : forall ts d, In d (log (parse_tokens ts)) ->
   d_pos d = 0 \/ exists t, In t ts /\ d_pos d = tpos t.
 Proof. first [exact ParserInvProofs.diag_pos_is_token_pos | apply ParserInvProofs.diag_pos_is_token_pos]. Qed.
 Print Assumptions C17_diag_at_token.
+
+(* accepted (no error, no fuel exhaustion, no panic site) iff derivable from the grammar and accepted by the generator *)
+Theorem C17_accepts_iff : forall ts, lex_shape ts ->
+  (hadError (parse_tokens ts) = false /\ oof (parse_tokens ts) = false /\
+   ppanic (parse_tokens ts) = false) <->
+  (exists p, ast_program ts = Some p /\ hadError (compile_program p) = false).
+Proof. first [exact T2Proofs.T2_accepts_iff | apply T2Proofs.T2_accepts_iff]. Qed.
+Print Assumptions C17_accepts_iff.
+
+(* the same for Parse on a source text *)
+Theorem C17_source : forall name src,
+  let pr := parse_whole name src in
+  let ts := fst (lex [src]) in
+  (pr_ok pr = true /\ pr_oof pr = false /\ pr_panic pr = false) <->
+  (exists p, ast_program ts = Some p /\ hadError (compile_program p) = false).
+Proof. first [exact Language.bcl_accepts_iff | apply Language.bcl_accepts_iff]. Qed.
+Print Assumptions C17_source.
+
+(* and then code, constants and identifier table are the generator's *)
+Theorem C17_code : forall ts, lex_shape ts ->
+  hadError (parse_tokens ts) = false -> oof (parse_tokens ts) = false ->
+  ppanic (parse_tokens ts) = false ->
+  exists p, ast_program ts = Some p /\ hadError (compile_program p) = false /\
+    code (parse_tokens ts) = code (compile_program p) /\
+    consts (parse_tokens ts) = consts (compile_program p) /\
+    nconsts (parse_tokens ts) = nconsts (compile_program p) /\
+    ncode (parse_tokens ts) = ncode (compile_program p) /\
+    identRefs (parse_tokens ts) = identRefs (compile_program p).
+Proof. first [exact T2Proofs.T2_code_equal | apply T2Proofs.T2_code_equal]. Qed.
+Print Assumptions C17_code.
+
+(* on token lists ending in tEOF: not a sentence => error; sentence => same verdict and same emitter state as the generator *)
+Theorem C17_rejects : forall ts, eshape ts ->
+  match ast_program ts with
+  | Some p =>
+      (hadError (compile_program p) = true /\ hadError (parse_tokens ts) = true) \/
+      (hadError (compile_program p) = false /\ hadError (parse_tokens ts) = false /\
+       oof (parse_tokens ts) = false /\ ppanic (parse_tokens ts) = false /\
+       ev (parse_tokens ts) = ev (compile_program p))
+  | None => hadError (parse_tokens ts) = true
+  end.
+Proof. first [exact T2Proofs.T2_core | apply T2Proofs.T2_core]. Qed.
+Print Assumptions C17_rejects.
+
+(* an accepted parse never ran out of fuel and hit no panic site *)
+Theorem C17_fuel : forall ts, eshape ts -> hadError (parse_tokens ts) = false ->
+  oof (parse_tokens ts) = false /\ ppanic (parse_tokens ts) = false.
+Proof. first [exact T2Proofs.T2_accept_no_oof | apply T2Proofs.T2_accept_no_oof]. Qed.
+Print Assumptions C17_fuel.
 
 Example C17_example :
   pr_ok (parse_whole (bs "f") (bs "var x = 1 def b { y = x; z = (y = 2) } print x; bind b -> struct")) = true
